@@ -72,6 +72,21 @@ func checkPubKey(t *rapid.T, k *secec.PublicKey, p ref.Pt, what string) {
 	if err != nil || !back.Equal(k) || !k.Equal(back) {
 		t.Fatalf("%s: ASN1Bytes() does not parse back to an Equal key: %v", what, err)
 	}
+	// results of separate calls (on this key and on another key) must be independent buffers
+	first := k.ASN1Bytes()
+	other := lib.PubKey(ref.BaseMul(big.NewInt(0x0ddba11))).ASN1Bytes()
+	if !bytes.Equal(first, ref.EncodeSPKI(p)) {
+		t.Fatalf("%s: an earlier ASN1Bytes() result changed when another key was encoded: %x", what, first)
+	}
+	for i := range other {
+		other[i] ^= 0xff
+	}
+	for i := range first {
+		first[i] = 0
+	}
+	if !bytes.Equal(k.ASN1Bytes(), ref.EncodeSPKI(p)) || !bytes.Equal(k.Bytes(), p.Uncompressed()) {
+		t.Fatalf("%s: encodings changed after the caller overwrote earlier results", what)
+	}
 }
 
 // privScalar draws a private scalar: boundary-biased, or steered so that the
@@ -99,8 +114,8 @@ func propECDH(t *rapid.T) {
 			b = ref.Inv0(a, ref.N) // a*b = 1: shared point is G
 		}
 	}
-	rA := rapid.SampledFrom(routes).Draw(t, "routeA")
-	rB := rapid.SampledFrom(routes).Draw(t, "routeB")
+	rA := gen.Sampled(routes).Draw(t, "routeA")
+	rB := gen.Sampled(routes).Draw(t, "routeB")
 	A, B := ref.BaseMul(a), ref.BaseMul(b)
 	want := ref.BaseMul(ref.MulM(a, b, ref.N))
 	stat.Case("ecdh", []string{"A:" + rA, "B:" + rB, fmt.Sprintf("Ay-odd:%d", A.Y.Bit(0)), fmt.Sprintf("By-odd:%d", B.Y.Bit(0))}, true,
@@ -137,7 +152,7 @@ func propECDH(t *rapid.T) {
 func TestC10_ECDH(t *testing.T) { rapid.Check(t, propECDH) }
 
 func propImportPrivate(t *rapid.T) {
-	kind := rapid.SampledFrom([]string{"0", "n", "n+1", "2^256-1", "n-1", "1", "drawn", ">=n", "badlen"}).Draw(t, "kind")
+	kind := gen.Sampled([]string{"0", "n", "n+1", "2^256-1", "n-1", "1", "drawn", ">=n", "badlen"}).Draw(t, "kind")
 	var raw []byte
 	switch kind {
 	case "0":
@@ -157,7 +172,7 @@ func propImportPrivate(t *rapid.T) {
 	case ">=n":
 		raw = gen.Bytes32Any(t, ref.N, "v")
 	default:
-		n := rapid.SampledFrom([]int{0, 1, 16, 31, 33, 64}).Draw(t, "len")
+		n := gen.Sampled([]int{0, 1, 16, 31, 33, 64}).Draw(t, "len")
 		raw = gen.Bytes(t, n, n, "v")
 	}
 	orig := append([]byte(nil), raw...)
@@ -202,8 +217,8 @@ func propImportPrivate(t *rapid.T) {
 func TestC10_ImportPrivate(t *testing.T) { rapid.Check(t, propImportPrivate) }
 
 func propImportPublic(t *rapid.T) {
-	kind := rapid.SampledFrom([]string{"valid-c", "valid-u", "identity", "wrong-curve", "twist-c", "x+p", "y+p", "hybrid", "y-neg-prefix",
-		"bad-prefix", "truncated", "extended", "raw", "zeros"}).Draw(t, "kind")
+	kind := gen.Sampled([]string{"valid-c", "valid-u", "identity", "wrong-curve", "twist-c", "x+p", "y+p", "hybrid", "y-neg-prefix",
+		"bad-prefix", "truncated", "extended", "raw", "zeros", "near-curve", "near-curve"}).Draw(t, "kind")
 	pc := gen.NonIdentityPoint(t, "pt")
 	var raw []byte
 	switch kind {
@@ -222,6 +237,9 @@ func propImportPublic(t *rapid.T) {
 			x = ref.MulM(y, y, ref.P)
 			y = ref.MulM(x, y, ref.P) // (y^2)^3 = (y^3)^2
 		}
+		raw = append(append([]byte{4}, ref.B32(x)...), ref.B32(y)...)
+	case "near-curve": // canonical (x, y) on y^2 = x^3 + 7 + d for a hostile small d
+		x, y, _ := gen.NearCurve(t, "nc")
 		raw = append(append([]byte{4}, ref.B32(x)...), ref.B32(y)...)
 	case "twist-c":
 		x := gen.Int256(t, ref.P, "x")
@@ -248,14 +266,14 @@ func propImportPublic(t *rapid.T) {
 		raw[0] ^= 1 // the other root: valid, but a different key
 	case "bad-prefix":
 		raw = pc.P.Compressed()
-		raw[0] = rapid.SampledFrom([]byte{0, 1, 4, 5, 6, 7, 0x82, 0xff}).Draw(t, "pfx")
+		raw[0] = gen.Sampled([]byte{0, 1, 4, 5, 6, 7, 0x82, 0xff}).Draw(t, "pfx")
 	case "truncated":
 		raw = pc.P.Uncompressed()
 		raw = raw[:len(raw)-1]
 	case "extended":
 		raw = append(pc.P.Compressed(), 0)
 	case "zeros":
-		raw = make([]byte, rapid.SampledFrom([]int{1, 33, 65}).Draw(t, "zl"))
+		raw = make([]byte, gen.Sampled([]int{1, 33, 65}).Draw(t, "zl"))
 	default:
 		raw = gen.Bytes(t, 0, 70, "raw")
 	}
@@ -265,7 +283,7 @@ func propImportPublic(t *rapid.T) {
 	if ok {
 		acc = "accept"
 	}
-	entry := rapid.SampledFrom([]string{"NewPublicKey", "spki"}).Draw(t, "entry")
+	entry := gen.Sampled([]string{"NewPublicKey", "spki"}).Draw(t, "entry")
 	stat.Case("import-public", []string{"kind:" + kind, acc, "entry:" + entry}, true, append([]byte(entry+"|"), raw...), func() any {
 		return map[string]any{"bytes": stat.Hex(raw), "kind": kind, "entry": entry, "expect": acc}
 	})
